@@ -66,7 +66,7 @@ RULE = (
     "by-criteria filter, every objective inverter - judged on its maximise criteria -, user transformers returning only the "
     "weights or a subset without the matrix) x {alone, alone inside a pipeline, among weight-only steps (every step also "
     "judged by itself)}: cells bit-identical (surviving rows under filters), per-criterion dtypes against the model's "
-    "declared sets. One extra case per run holds the table extracted from the tree (class x target -> rewritten keys). "
+    "declared sets. CALLABLES THAT WORK IN PLACE ON WHAT THEY ARE GIVEN (a fixed share of every run): a function-based Filter whose callables rewrite the criterion array they receive - np.clip(e, lo, hi, out=e), e -= e.mean(), e *= 0, np.negative(e, out=e), e += 1, e.fill(max), e.sort() - before or after they compute the mask (every mask form but the indicator) x {all-int, all-float, mixed} matrix x {one, two} criteria x {alone, alone inside a pipeline, among weight-only steps (every step also judged by itself)}; drawn so that a SURVIVING row holds a cell the callable's own copy had rewritten: the surviving rows must come back bit-identical (and the input matrix untouched). WEIGHT-ONLY STEPS OVER NEGATIVE CELLS (a fixed share of every run): every weighter x parameters (EntropyWeighter twice) and every scaler with target='weights' x {all-int, all-float, mixed} x {alone, alone inside a pipeline, among 1-3 other weight-only steps (every step also judged by itself)} on matrices (>= 3 alternatives, >= 2 criteria, none constant) with one / some / a whole criterion of / only negative cells: whatever weights the step answers with (NaN included; a refusal outside the step's numeric domain is not judged), the matrix must come back bit-identical. One extra case per run holds the table extracted from the tree (class x target -> rewritten keys). "
     "Non-trivial: the transform answered and changed at least one part; distinct by case hash."
 )
 ASSUMPTIONS = [
@@ -902,7 +902,141 @@ def _width_cases(rng, rounds):
     return out
 
 
-def _random_cases(rng, n_sweeps, n_user, n_pipe, n_mask=1, n_seq=(60, 40), n_fixed=1, n_big=2, n_nonfinite=1, n_labels=(3, 30, 20), n_const=1, n_width=1):
+# a callable of a function-based `Filter` that works IN PLACE on the criterion array it is given: what it does to the array
+# and whether it does it before or after computing its mask
+SCRIBBLES = ["clip", "center", "zero", "negate", "shift", "fill", "sort"]
+SCRIBBLE_WHEN = ["scribble-then-mask", "mask-then-scribble"]
+INPLACE_SHAPES = ["alone", "alone-in-pipeline", "among-weight-steps"]
+
+
+def _scribble(e, how):
+    """rewrite the array `e` in place (int64 and float64 arrays alike)"""
+    do = how["do"]
+    if do == "clip":
+        np.clip(e, how["lo"], how["hi"], out=e)
+    elif do == "center":
+        e -= e.mean().astype(e.dtype)
+    elif do == "zero":
+        e *= 0
+    elif do == "negate":
+        np.negative(e, out=e)
+    elif do == "shift":
+        e += 1
+    elif do == "fill":
+        e.fill(e.max())
+    elif do == "sort":
+        e.sort()
+    else:
+        raise KeyError(do)
+
+
+def _received(dm, j):
+    """the criterion as a callable of `Filter` receives it: a column of the whole matrix (float64 unless every criterion is int64)"""
+    return np.array([row[j] for row in dm["matrix"]], dtype=np.int64 if all(t == "int64" for t in dm["dtypes"]) else float)
+
+
+def _inplace_fn_case(rng, do, dtypes, nk, shape):
+    """a function-based `Filter` over `nk` criteria whose callables rewrite the array they are given; drawn (on copies) until
+    a row that survives holds a cell a callable rewrote"""
+    dm = spec = None
+    for _ in range(60):
+        dm = _dm(rng, positive=rng.random() < 0.6, zeros=rng.random() < 0.2, min_m=3, min_n=nk, dtypes=dtypes)
+        crits, m = dm["criteria"], len(dm["matrix"])
+        conds, keep, rewritten = [], np.ones(m, dtype=bool), np.zeros(m, dtype=bool)
+        for i, c in enumerate(rng.sample(crits, nk)):
+            e0 = _received(dm, crits.index(c))
+            how = {"do": do if i == 0 else rng.choice(SCRIBBLES), "when": rng.choice(SCRIBBLE_WHEN)}
+            if how["do"] == "clip":  # whole-number bounds: valid for int64 and float64 arrays
+                lo, hi = sorted(int(np.floor(x)) for x in rng.sample(list(e0), 2))
+                how["lo"], how["hi"] = lo, max(hi, lo + 1)
+            e1 = e0.copy()
+            _scribble(e1, how)
+            seen = e1 if how["when"] == "scribble-then-mask" else e0  # what the mask is computed from
+            v = [rng.choice(["gt", "ge", "lt", "le", "ne"]), float(_threshold(rng, [float(x) for x in seen])),
+                 rng.choice(MASK_FORMS[:5]), how]
+            conds.append([c, v])
+            e = e0.copy()
+            keep &= np.asarray(_mask_fn(v)(e)).astype(bool)
+            rewritten |= e != e0
+        if (keep & rewritten).any():
+            when = conds[0][1][3]["when"]
+            ignore = rng.random() < 0.3
+            if ignore and rng.random() < 0.5:
+                conds.insert(rng.randrange(len(conds) + 1), ["no_such_criterion", conds[0][1]])
+            spec = {"k": "filter", "cls": "Fn", "conds": conds, "ignore": ignore}
+            break
+    if spec is None:
+        return None
+    steps = [spec]
+    if shape == "among-weight-steps":
+        before = [_weight_only_step(rng) for _ in range(rng.randint(0, 2))]
+        after = [_weight_only_step(rng) for _ in range(rng.randint(0 if before else 1, 2))]
+        steps = before + [spec] + after
+    return {"dm": dm, "steps": steps, "pipe": shape != "alone", "stagewise": len(steps) > 1,
+            "inplace_callable": [do, when, shape]}
+
+
+def _inplace_fn_cases(rng, rounds):
+    """every in-place operation x {all-int, all-float, mixed} matrix x shape; one or two criteria"""
+    out = []
+    for _ in range(rounds):
+        for do in SCRIBBLES:
+            for dtypes in ("int", "float", "mixed"):
+                for shape in INPLACE_SHAPES:
+                    c = _inplace_fn_case(rng, do, dtypes, rng.choice([1, 1, 2]), shape)
+                    if c is not None:
+                        out.append(c)
+    return out
+
+
+# negative cells under the steps that declare only the weights
+NEG_WHICH = ["one-cell", "some-cells", "a-whole-criterion", "every-cell"]
+WEIGHT_ONLY_MAINS = ([["weighter", c] for c in WEIGHTERS] + [["weighter", "EntropyWeighter"]] + [["scaler", c] for c in SWITCH])
+
+
+def _negative_dm(rng, dtypes, which, min_n):
+    """>= 3 alternatives, no criterion constant, with negative cells (whole numbers in int64 criteria, dyadic numbers or
+    arbitrary doubles in float64 ones)"""
+    dm = _dm(rng, positive=True, min_m=3, min_n=min_n, dtypes=dtypes)
+    m, n = len(dm["matrix"]), len(dm["criteria"])
+    cells = [(i, j) for i in range(m) for j in range(n)]
+    if which == "one-cell":
+        neg = [rng.choice(cells)]
+    elif which == "some-cells":
+        neg = rng.sample(cells, rng.randint(2, max(2, len(cells) // 2)))
+    elif which == "a-whole-criterion":
+        js = rng.sample(range(n), rng.randint(1, max(1, n - 1)))
+        neg = [(i, j) for i in range(m) for j in js] + [c for c in cells if rng.random() < 0.1]
+    else:
+        neg = cells
+    for i, j in set(neg):
+        dm["matrix"][i][j] = -dm["matrix"][i][j]  # positive and distinct values: no criterion turns constant
+    dm["family"] = "negative-cells"
+    return dm
+
+
+def _negative_weight_case(rng, kind, cls, dtypes, shape):
+    which = rng.choice(NEG_WHICH)
+    if kind == "weighter":
+        main = {"k": "weighter", "cls": cls, "params": _weighter_params(rng, cls)}
+    else:
+        main = {"k": "scaler", "cls": cls, "target": "weights", "params": _scaler_params(rng, cls)}
+    steps = [main]
+    if shape == "pipeline":
+        steps += [_weight_only_step(rng, statistical=True) for _ in range(rng.randint(1, 3))]
+        rng.shuffle(steps)
+    dm = _negative_dm(rng, dtypes, which, 2)
+    return {"dm": dm, "steps": steps, "pipe": shape != "alone", "stagewise": len(steps) > 1,
+            "negative_cells": [cls if kind == "weighter" else cls + "/weights", dtypes, which, shape]}
+
+
+def _negative_weight_cases(rng, rounds):
+    """every weighter (EntropyWeighter twice) and every weight-target scaler x {all-int, all-float, mixed} x shape"""
+    return [_negative_weight_case(rng, kind, cls, dtypes, shape) for _ in range(rounds) for kind, cls in WEIGHT_ONLY_MAINS
+            for dtypes in ("int", "float", "mixed") for shape in SHAPES]
+
+
+def _random_cases(rng, n_sweeps, n_user, n_pipe, n_mask=1, n_seq=(60, 40), n_fixed=1, n_big=2, n_nonfinite=1, n_labels=(3, 30, 20), n_const=1, n_width=1, n_inplace=1, n_negative=1):
     cases = []
     for _ in range(n_sweeps):
         cases.extend(_every_builtin(rng))
@@ -924,6 +1058,9 @@ def _random_cases(rng, n_sweeps, n_user, n_pipe, n_mask=1, n_seq=(60, 40), n_fix
     # that do not target the matrix
     cases.extend(_constant_criterion_cases(rng, n_const))
     cases.extend(_width_cases(rng, n_width))
+    # ... callables that work in place on what they are given; weight-only steps over negative cells
+    cases.extend(_inplace_fn_cases(rng, n_inplace))
+    cases.extend(_negative_weight_cases(rng, n_negative))
     return cases
 
 
@@ -931,11 +1068,11 @@ def gen(ctx):
     rng = ctx.rng
     return [{"table": True}] + _random_cases(rng, ctx.n(5, 70), ctx.n(70, 1000), ctx.n(110, 1600), ctx.n(2, 20),
                                              (ctx.n(70, 900), ctx.n(50, 600)), ctx.n(2, 12), ctx.n(3, 20), ctx.n(1, 8),
-                                             (ctx.n(3, 24), ctx.n(30, 300), ctx.n(20, 200)), ctx.n(2, 12), ctx.n(2, 10))
+                                             (ctx.n(3, 24), ctx.n(30, 300), ctx.n(20, 200)), ctx.n(2, 12), ctx.n(2, 10), ctx.n(2, 10), ctx.n(2, 8))
 
 
 def search_gen(ctx):
-    return _random_cases(ctx.rng, 12, 150, 250, 3, (150, 100), 3, 4, 2, (6, 60, 40), 3, 3)
+    return _random_cases(ctx.rng, 12, 150, 250, 3, (150, 100), 3, 4, 2, (6, 60, 40), 3, 3, 3, 3)
 
 
 # --------------------------------------------------------------------------- implementation side
@@ -952,11 +1089,25 @@ def _mask_fn(v):
     cond = _FN[v[0]](v[1])
     form = v[2] if len(v) > 2 else "bool"
     if form in ("bool", "indicator"):
-        return cond
-    if form == "where":
-        return lambda e: np.where(cond(e), 1, 0)
-    to = {"astype": int, "uint8": np.uint8, "float": float}[form]
-    return lambda e: cond(e).astype(to)
+        mask = cond
+    elif form == "where":
+        mask = lambda e: np.where(cond(e), 1, 0)  # noqa: E731
+    else:
+        to = {"astype": int, "uint8": np.uint8, "float": float}[form]
+        mask = lambda e: cond(e).astype(to)  # noqa: E731
+    how = v[3] if len(v) > 3 else None
+    if not how:
+        return mask
+
+    def inplace(e):  # a callable that works IN PLACE on the array it is given, before or after it computes its mask
+        if how["when"] == "scribble-then-mask":
+            _scribble(e, how)
+            return mask(e)
+        out = np.array(mask(e), copy=True)
+        _scribble(e, how)
+        return out
+
+    return inplace
 
 
 _CELL = {None: np.nan, "inf": np.inf, "-inf": -np.inf}  # how a case writes the cells JSON has no number for
@@ -1558,6 +1709,14 @@ def tags(case, obs):
         pair, build, shape = case["widths"]
         t.append("same-kind-widths:%s/%s" % (pair, build))
         t.append("same-kind-widths:" + shape)
+    if case.get("inplace_callable"):
+        do, when, shape = case["inplace_callable"]
+        t.append("in-place-callable:%s/%s" % (do, when))
+        t.append("in-place-callable:" + shape)
+    if case.get("negative_cells"):
+        cls, dts, which, shape = case["negative_cells"]
+        t.append("negative-cells:%s/%s" % (cls, dts))
+        t.append("negative-cells:%s/%s" % (which, shape))
     if case.get("seq"):
         t.append("one-object-two-matrices:" + case["seq"])
         o2 = obs.get("second", {})
